@@ -262,7 +262,7 @@ GEN = {
     "C09": ({"TagNames": '{"tag/a", "tag/b", "mark/m"}', "ConvNames": "{}", "MaxCalls": 6, "MaxViews": 1, "Menu": '"tagsb"', "Invalid": "FALSE"}, 40),
     "C10": ({"TagNames": '{"tag/a"}', "ConvNames": "{}", "MaxCalls": 7, "MaxViews": 3, "Menu": '"files"', "Invalid": "FALSE"}, 40),
     "C11": ({"TagNames": '{"tag/a", "tag/b", "mark/m"}', "ConvNames": "{}", "MaxCalls": 12, "MaxViews": 0, "Menu": '"tagsb"', "Invalid": "TRUE", "Extra": '{"rename", "color"}'}, 34),
-    "C13": ({"TagNames": '{"tag/a"}', "ConvNames": "{}", "MaxCalls": 8, "MaxViews": 3, "Menu": '"files"', "Invalid": "FALSE"}, 40),
+    "C13": ({"TagNames": '{"tag/a"}', "ConvNames": "{}", "MaxCalls": 8, "MaxViews": 3, "Menu": '"files"', "Invalid": "FALSE", "Extra": '{"mergefail"}'}, 40),
     "C12": ({"TagNames": '{"tag/a", "tag/b", "mark/m"}', "ConvNames": '{"cv"}', "MaxCalls": 12, "MaxViews": 1, "Menu": '"conv"', "Invalid": "FALSE", "Crashes": "TRUE",
              "Restarts": "TRUE", "Extra": '{"rename", "color", "settings"}'}, 50),
     "C16": ({"TagNames": '{"tag/a", "tag/b", "mark/m"}', "ConvNames": '{"cv"}', "MaxCalls": 10, "MaxViews": 1, "Menu": '"conv"', "Invalid": "FALSE", "Crashes": "TRUE",
@@ -301,7 +301,12 @@ MC = {
                         "Extra": '{"rename", "color"}'},
              ["GraphWellFormed", "NeverStale", "NeverStuck", "FlagsMatchJobs"])],
     "C13": [("files", {"TagNames": '{"tag/a"}', "ConvNames": "{}", "MaxCalls": 3, "MaxViews": 2, "Menu": '"files"', "Invalid": "FALSE"},
-             ["NoUseAfterFree", "Balanced", "DirExactWhenQuiet", "NoLeak"])],
+             ["NoUseAfterFree", "Balanced", "DirExactWhenQuiet", "NoLeak"]),
+            # a merge may fail (its output cannot be written): nothing is replaced, the job's locks are given back,
+            # the oldest file of the run is left out of later merges
+            ("mergefail", {"TagNames": '{"tag/a"}', "ConvNames": "{}", "MaxCalls": 3, "MaxViews": 1, "Menu": '"files"', "Invalid": "FALSE",
+                           "Extra": '{"mergefail"}'},
+             ["NoUseAfterFree", "Balanced", "DirExactWhenQuiet", "NoLeak", "ViewComplete", "NeverStuck", "FlagsMatchJobs"])],
     # C12: the process may be killed between any two steps and restarted (Restart action of Manager.tla), then anything may follow
     "C12": [("restart", {"TagNames": '{"tag/a"}', "ConvNames": '{"cv"}', "MaxCalls": 3, "MaxViews": 0, "Menu": '"conv"', "Invalid": "FALSE", "Restarts": "TRUE"},
              ["MCViewComplete", "NameOrderIsServeOrder", "NeverStale", "Balanced", "NoUseAfterFree", "GraphWellFormed", "NeverStuck",
